@@ -58,6 +58,10 @@ func parseJSONPointer(ptr string) (segments []string, err error) {
 	if strings.Contains(ptr, "~") {
 		// Undo the simple escaping rules that allow one to include a slash in a segment.
 		for i := range segments {
+			// The only escape sequences are ~0 and ~1 (RFC 6901, section 3).
+			if n := strings.Count(segments[i], "~"); n != strings.Count(segments[i], "~0")+strings.Count(segments[i], "~1") {
+				return nil, fmt.Errorf("JSON Pointer %q has an invalid escape sequence", ptr)
+			}
 			segments[i] = unescapeJSONPointerSegment(segments[i])
 		}
 	}
@@ -102,6 +106,10 @@ func dereferenceJSONPointer(s *Schema, sptr string) (_ *Schema, err error) {
 			}
 			if len(seg) > 1 && seg[0] == '0' {
 				return nil, fmt.Errorf("segment %q has leading zeroes", seg)
+			}
+			// Only digits: strconv.Atoi also accepts a sign.
+			if strings.Trim(seg, "0123456789") != "" {
+				return nil, fmt.Errorf("invalid int: %q", seg)
 			}
 			n, err := strconv.Atoi(seg)
 			if err != nil {
